@@ -188,6 +188,7 @@ pub fn visit(ctx: &BoardCtx, p: &Pos) {
     ctx.states.fetch_add(1, std::sync::atomic::Ordering::Relaxed);
     let fen = p.to_fen();
     set_current_case(&fen);
+    ctx.rep.sample(|| json!({"state": fen, "legal_moves": p.legal().iter().map(|m| m.uci()).collect::<Vec<_>>(), "judged_for": ctx.prop.id()}));
     if !p.is_legal_position() {
         // never hand the subject an illegal position (DESIGN §6.1)
         ctx.rep.machinery(format!("illegal position generated by the harness: {}", fen));
